@@ -140,6 +140,25 @@ pub fn scenarios(tier: Tier) -> Vec<Scenario> {
         BatchMode::adaptive(3, Duration::from_millis(5)),
         BatchMode::adaptive(1024, Duration::from_millis(5)),
     ];
+    // long operation sequences: full batches of the default size (1024) are cut by size
+    out.push(loop_scenario(
+        "C02/batcher/long-sequences".to_string(),
+        "sequences of 2500 batcher operations (mostly enqueues, a watermark every 97, a flush every 1301, a clock advance every 700 operations) for fixed 1024 / adaptive 1024 / fixed 100".to_string(),
+        Arc::new(move || {
+            let mut cases = 0;
+            let mut fail = None;
+            for mode in [BatchMode::fixed(1024), BatchMode::adaptive(1024, Duration::from_millis(5)), BatchMode::fixed(100)] {
+                for phase in [0usize, 1, 2] {
+                    let ops: Vec<usize> = (0..2500usize).map(|i| if (i + phase) % 1301 == 1300 { 2 } else if (i + phase) % 700 == 699 { 3 } else if (i + phase) % 97 == 96 { 1 } else { 0 }).collect();
+                    cases += 1;
+                    if fail.is_none() {
+                        fail = batcher_case(mode, &ops, 5).map(|f| Fail::new(f.sig.clone(), format!("long sequence (phase {phase}) in mode {:?}: {}", mode, f.msg.chars().take(300).collect::<String>())));
+                    }
+                }
+            }
+            (cases, cases, fail)
+        }),
+    ));
     for mode in modes {
         out.push(loop_scenario(
             format!("C02/batcher/{:?}/len{len}", mode).replace(' ', ""),
